@@ -69,7 +69,7 @@ pub fn generated_seeds(thorough: bool) -> Vec<Seed> {
     let mut v = Vec::new();
     let five = "Ord, PartialOrd, Eq, PartialEq, Hash";
     // comparison family: accepted combinations with few attributes
-    let lists: Vec<(&str, Vec<Tr>)> = vec![(five, vec![Ord, PartialOrd, Eq, PartialEq, Hash]), ("PartialEq", vec![PartialEq]), ("PartialOrd, PartialEq", vec![PartialOrd, PartialEq]), ("Hash", vec![Hash]), ("Eq, PartialEq, Hash", vec![Eq, PartialEq, Hash]), ("PartialEq, Eq, PartialOrd, Ord", vec![PartialEq, Eq, PartialOrd, Ord])];
+    let lists: Vec<(&str, Vec<Tr>)> = vec![(five, vec![Ord, PartialOrd, Eq, PartialEq, Hash]), ("PartialEq", vec![PartialEq]), ("PartialOrd, PartialEq", vec![PartialOrd, PartialEq]), ("Hash", vec![Hash]), ("Eq, PartialEq, Hash", vec![Eq, PartialEq, Hash]), ("PartialEq, Eq, PartialOrd, Ord", vec![PartialEq, Eq, PartialOrd, Ord]), ("PartialOrd", vec![PartialOrd]), ("Eq", vec![Eq]), ("Ord", vec![Ord])];
     let max_set = if thorough { 2 } else { 1 };
     for (attr, derived) in &lists {
         for combo in Combo::all() {
